@@ -125,7 +125,16 @@ def gen_live(rng, flavour):
             for n in range(start, start + rng.choice([3, 4, 5])):
                 faults[str(n)] = {"transport": kind}
     sc["faults"] = faults
+    _tz(sc)
     return sc
+
+
+def _tz(sc):
+    from . import rt
+
+    tz = rt.tz_for("live|%s|%d" % (sc["markets"][0]["updates"][0]["pt"], len(sc["markets"][0]["updates"])))
+    if tz:
+        sc["tz"] = tz
 
 
 def gen_live_closure(rng):
@@ -154,6 +163,7 @@ def gen_live_closure(rng):
     if any(s_["name"] == "L0" for s_ in strategies):
         for mi in range(n_markets):
             gen_actions(rng, markets[mi], "L0", mix)
+    _tz(sc)
     return sc
 
 
